@@ -163,6 +163,148 @@ Fixpoint listed_positive (ws : list (option Z)) (opts : list Z) (v : Z) : bool :
 Definition choice_possible (a : rc_args) (v : Z) : bool :=
   listed_positive (rc_weights a) (rc_options a) v.
 
+
+(* ------------------------------------------------------------------ the text of the weights *)
+
+(* template_funcs.py:30-42 parse_weight_str: the probability as the user wrote it (after the
+   formula, if any, was evaluated for the row at hand) is an int, a float (given here by its
+   decimal text) or a string; a string loses its trailing '%' characters and goes through
+   Python's float(): optional blanks, optional sign, digits with an optional decimal point.
+   Exponents, underscores, inf / nan are valid for float() but not modelled: Unsupported. *)
+Inductive wtok := WInt (z : Z) | WFlt (s : string) | WStr (s : string).
+
+(* a decimal number: dnum / 10^dplaces *)
+Record dec := mkDec { dnum : Z; dplaces : nat }.
+
+Definition chars (s : string) : list ascii := list_ascii_of_string s.
+
+Definition digit_val (c : ascii) : option Z :=
+  match c with
+  | "0"%char => Some 0 | "1"%char => Some 1 | "2"%char => Some 2 | "3"%char => Some 3
+  | "4"%char => Some 4 | "5"%char => Some 5 | "6"%char => Some 6 | "7"%char => Some 7
+  | "8"%char => Some 8 | "9"%char => Some 9 | _ => None
+  end.
+
+Definition sign_of (c : ascii) : option Z :=
+  match c with "+"%char => Some 1 | "-"%char => Some (-1) | _ => None end.
+
+(* the longest run of digits at the head: (value continuing acc, number of digits, rest) *)
+Fixpoint take_digits (cs : list ascii) (acc : Z) (n : nat) : Z * nat * list ascii :=
+  match cs with
+  | c :: r =>
+    match digit_val c with
+    | Some v => take_digits r (acc * 10 + v) (S n)
+    | None => (acc, n, cs)
+    end
+  | [] => (acc, n, [])
+  end.
+
+(* the number a digit string denotes, continuing acc (used to state what the parsers compute) *)
+Fixpoint dval (acc : Z) (cs : list ascii) : Z :=
+  match cs with
+  | c :: r => match digit_val c with Some v => dval (acc * 10 + v) r | None => acc end
+  | [] => acc
+  end.
+Definition is_digit (c : ascii) : bool := match digit_val c with Some _ => true | None => false end.
+Definition all_digits (cs : list ascii) : bool := forallb is_digit cs.
+
+Fixpoint drop_while (p : ascii -> bool) (cs : list ascii) : list ascii :=
+  match cs with c :: r => if p c then drop_while p r else cs | [] => [] end.
+Definition rstrip_chars (p : ascii -> bool) (cs : list ascii) : list ascii :=
+  rev (drop_while p (rev cs)).
+Definition is_blank (c : ascii) : bool := match c with " "%char => true | _ => false end.
+Definition is_pct (c : ascii) : bool := match c with "%"%char => true | _ => false end.
+Definition is_point (c : ascii) : bool := match c with "."%char => true | _ => false end.
+
+Definition weight_char (c : ascii) : bool :=
+  match digit_val c, sign_of c with
+  | Some _, _ | _, Some _ => true
+  | None, None => is_blank c || is_pct c || is_point c
+  end.
+
+(* Python float(text) on the modelled alphabet *)
+Definition parse_decimal (cs0 : list ascii) : result dec :=
+  if negb (forallb weight_char cs0) then Err Unsupported else
+  let cs := rstrip_chars is_blank (drop_while is_blank cs0) in
+  let '(sg, cs1) := match cs with
+                    | c :: r => match sign_of c with Some s => (s, r) | None => (1, cs) end
+                    | [] => (1, [])
+                    end in
+  let '(ip, ni, r1) := take_digits cs1 0 0 in
+  match r1 with
+  | [] => match ni with O => value_error | S _ => Ok (mkDec (sg * ip) 0) end
+  | c :: r2 =>
+    if is_point c then
+      let '(fp, nf, r3) := take_digits r2 ip 0 in
+      match r3 with
+      | [] => match (ni + nf)%nat with O => value_error | S _ => Ok (mkDec (sg * fp) nf) end
+      | _ :: _ => value_error
+      end
+    else value_error
+  end.
+
+Definition parse_weight_str (t : wtok) : result dec :=
+  match t with
+  | WInt z => Ok (mkDec z 0)
+  | WFlt s => parse_decimal (chars s)
+  | WStr s => parse_decimal (rstrip_chars is_pct (chars s))
+  end.
+
+(* choice(pick, probability): an absent probability stays None *)
+Fixpoint parse_weights (ts : list (option wtok)) : result (list (option dec)) :=
+  match ts with
+  | [] => Ok []
+  | None :: r => do ws <- parse_weights r; Ok (None :: ws)
+  | Some t :: r => do w <- parse_weight_str t; do ws <- parse_weights r; Ok (Some w :: ws)
+  end.
+
+(* random.choices is invariant under a common positive factor of the weights
+   (C11_weighted_choice_scale_invariant): the decimals are brought to one denominator *)
+Definition pow10 (n : nat) : Z := 10 ^ Z.of_nat n.
+Fixpoint max_places (ws : list (option dec)) : nat :=
+  match ws with
+  | [] => O
+  | Some d :: r => Nat.max (dplaces d) (max_places r)
+  | None :: r => max_places r
+  end.
+Definition scale_to (P : nat) (d : dec) : Z := dnum d * pow10 (P - dplaces d).
+Definition scale_weights (ws : list (option dec)) : list (option Z) :=
+  map (option_map (scale_to (max_places ws))) ws.
+
+(* A `random_choice` block as it stands in the recipe: every probability is a literal or a
+   formula of the row at hand, every pick a label or a formula.  A formula is represented by its
+   value table over the row key (the value of the driving expression: id, child_index, a
+   counter, a field of the parent ...).  The block is rendered anew for every row: the weights
+   used for a row are a function of the block and that row's key, of nothing else. *)
+Inductive wexpr := WLit (t : wtok) | WByKey (tab : list (Z * wtok)) (dflt : wtok).
+Inductive pexpr := PLab (l : Z) | PKey (offset : Z).
+Definition block := list (option wexpr * pexpr).
+
+Definition eval_wexpr (k : Z) (e : wexpr) : wtok :=
+  match e with
+  | WLit t => t
+  | WByKey tab dflt =>
+    match find (fun p => fst p =? k) tab with Some p => snd p | None => dflt end
+  end.
+Definition eval_pexpr (k : Z) (p : pexpr) : Z :=
+  match p with PLab l => l | PKey o => k + o end.
+
+Definition block_toks (k : Z) (b : block) : list (option wtok) :=
+  map (fun it => option_map (eval_wexpr k) (fst it)) b.
+Definition block_labels (k : Z) (b : block) : list Z := map (fun it => eval_pexpr k (snd it)) b.
+
+(* the (weight, pick) pairs random_choice hands to weighted_choice for the row with key k;
+   the mapping form `L1: 60%` goes through the same parse_weight_str and weighted_choice *)
+Definition render_block (k : Z) (b : block) : result rc_args :=
+  do ws <- parse_weights (block_toks k b);
+  Ok (RCChoices (combine (scale_weights ws) (block_labels k b))).
+
+Definition run_block (b : block) (k : Z) (d : option Z) (den : Z) : result Z :=
+  do a <- render_block k b; random_choice a d den.
+
+Definition block_possible (b : block) (k : Z) (v : Z) : bool :=
+  match render_block k b with Ok a => choice_possible a v | Err _ => false end.
+
 (* ------------------------------------------------------------------ dates and datetimes *)
 
 (* a date-time as the user wrote it: wall clock reading in microseconds (read as if UTC)
@@ -179,7 +321,8 @@ Inductive spec :=
 | SStamp (s : stamp)                 (* datetime object, or a string dateutil parses *)
 | SDate (day : Z)                    (* date object *)
 | SRel (y mo w d h mi s : Z)         (* Faker's "+1y-3d" strings *)
-| SBad.                              (* nothing parses it *)
+| SBad                               (* nothing parses it *)
+| SUnsup.                            (* a text outside the grammar modelled by spec_of_text *)
 
 Record clock := mkClock { now_us : Z; today : Z }.
 
@@ -206,6 +349,7 @@ Definition resolve_date (c : clock) (sp : spec) : result Z :=
   | SDate d => Ok d
   | SRel y mo w d h mi s => Ok (today c + rel_days y mo w d h mi s)
   | SBad => Err (Internal "ParseError")
+  | SUnsup => Err Unsupported
   end.
 
 (* Faker date_between_dates -> date_time_between_dates(tzinfo=None) -> .date(), local zone UTC:
@@ -234,6 +378,7 @@ Definition parse_datetimespec (c : clock) (sp : spec) : result stamp :=
                                                       now + timedelta(seconds=_parse_timedelta(d)) *)
     Ok (mkStamp (now_us c + rel_seconds y mo w d h mi s * US) (Some 0))
   | SBad => Err (Internal "ParserError")
+  | SUnsup => Err Unsupported
   end.
 
 (* template_funcs.py:124-157 with a datetimespec and the default timezone (UTC):
@@ -281,13 +426,183 @@ Definition datetime_between (cs ce : clock) (s e : spec) (tz : option Z) (d : op
          let rc := faker_dt_between (floor_sec (instant s')) (floor_sec (instant e')) num den in
          Ok (clamp rc (instant s') (instant e') tz)).
 
+
+(* ------------------------------------------------------------------ the text of the date bounds *)
+
+(* Faker's DateProvider.regex, which template_funcs uses (fullmatch) to recognise a relative
+   bound:  ((?P<years>(?:\+|-)\d+?)y)?((?P<months>...)M)?(...w)?(...d)?(...h)?(...m)?(...s)?
+   every group optional, the sign mandatory, the units in this order, each at most once.  A
+   group either matches at the current position (sign, digits, its unit letter) or is skipped;
+   as the unit letters differ and are no digits, no other split of the text can match. *)
+Definition rel_group (u : ascii) (cs : list ascii) : option Z * list ascii :=
+  match cs with
+  | c :: r =>
+    match sign_of c with
+    | Some sg =>
+      match take_digits r 0 0 with
+      | (v, S _, u' :: rest) => if Ascii.eqb u' u then (Some (sg * v), rest) else (None, cs)
+      | _ => (None, cs)
+      end
+    | None => (None, cs)
+    end
+  | [] => (None, cs)
+  end.
+
+Definition rel_units : list ascii := ["y"; "M"; "w"; "d"; "h"; "m"; "s"]%char.
+
+Fixpoint rel_groups (us : list ascii) (cs : list ascii) : list (option Z) * list ascii :=
+  match us with
+  | [] => ([], cs)
+  | u :: us' =>
+    let '(g, r) := rel_group u cs in
+    let '(gs, r') := rel_groups us' r in (g :: gs, r')
+  end.
+
+(* regex.fullmatch(text).groupdict() as integers; None: no full match *)
+Definition parse_rel (cs : list ascii) : option (list (option Z)) :=
+  let '(gs, r) := rel_groups rel_units cs in
+  match r with [] => Some gs | _ :: _ => None end.
+
+Definition slot (gs : list (option Z)) (i : nat) : Z :=
+  match nth i gs None with Some v => v | None => 0 end.
+
+(* days since 1970-01-01 of a date of the proleptic Gregorian calendar (years counted from
+   March: the leap day is the last day of the year) *)
+Definition days_of_civil (y m d : Z) : Z :=
+  let y' := if m <=? 2 then y - 1 else y in
+  let era := y' / 400 in
+  let yoe := y' - era * 400 in
+  let mp := (m + 9) mod 12 in
+  let doy := (153 * mp + 2) / 5 + d - 1 in
+  let doe := yoe * 365 + yoe / 4 - yoe / 100 + doy in
+  era * 146097 + doe - 719468.
+
+Definition is_leap (y : Z) : bool :=
+  ((y mod 4 =? 0) && negb (y mod 100 =? 0)) || (y mod 400 =? 0).
+Definition days_in_month (y m : Z) : Z :=
+  if m =? 2 then (if is_leap y then 29 else 28)
+  else if (m =? 4) || (m =? 6) || (m =? 9) || (m =? 11) then 30 else 31.
+Definition valid_date (y m d : Z) : bool :=
+  (1 <=? y) && (y <=? 9999) && (1 <=? m) && (m <=? 12) && (1 <=? d) && (d <=? days_in_month y m).
+Definition valid_time (h mi s : Z) : bool := (h <? 24) && (mi <? 60) && (s <? 60).
+
+Definition obind {A B} (o : option A) (f : A -> option B) : option B :=
+  match o with Some a => f a | None => None end.
+Notation "'olet' x <- o ; k" := (obind o (fun x => k))
+  (at level 200, x name, o at level 100, k at level 200).
+Notation "'olet' ' p <- o ; k" := (obind o (fun x => let 'p := x in k))
+  (at level 200, p pattern, o at level 100, k at level 200).
+
+(* exactly n digits *)
+Fixpoint take_n_digits (n : nat) (cs : list ascii) (acc : Z) : option (Z * list ascii) :=
+  match n with
+  | O => Some (acc, cs)
+  | S k =>
+    match cs with
+    | c :: r => match digit_val c with Some v => take_n_digits k r (acc * 10 + v) | None => None end
+    | [] => None
+    end
+  end.
+Definition expect_char (c : ascii) (cs : list ascii) : option (list ascii) :=
+  match cs with c' :: r => if Ascii.eqb c' c then Some r else None | [] => None end.
+
+(* The ISO 8601 subset YAML (unquoted timestamps), dateutil (quoted bounds) and the JSON output
+   (isoformat) have in common:  YYYY-MM-DD  and  YYYY-MM-DD(T| )HH:MM:SS[.f{1,6}][Z|(+|-)HH:MM] *)
+Inductive iso :=
+| IsoD (day : Z)
+| IsoS (s : stamp)
+| IsoBad           (* the shape is right, the fields are no date / time: every parser rejects *)
+| IsoUnsup.        (* another shape: not modelled *)
+
+Definition parse_zone (cs : list ascii) : option (option Z) :=
+  match cs with
+  | [] => Some None
+  | ["Z"%char] => Some (Some 0)
+  | c :: r =>
+    olet sg <- sign_of c;
+    olet '(hh, r) <- take_n_digits 2 r 0;
+    olet r <- expect_char ":" r;
+    olet '(mm, r) <- take_n_digits 2 r 0;
+    match r with
+    | [] => if (hh <? 24) && (mm <? 60) then Some (Some (sg * (hh * 3600 + mm * 60))) else None
+    | _ :: _ => None
+    end
+  end.
+
+Definition parse_fraction (cs : list ascii) : option (Z * list ascii) :=
+  match cs with
+  | c :: r =>
+    if is_point c then
+      let '(v, n, rest) := take_digits r 0 0 in
+      if ((1 <=? n) && (n <=? 6))%nat then Some (v * pow10 (6 - n), rest) else None
+    else Some (0, cs)
+  | [] => Some (0, [])
+  end.
+
+Definition is_sep (c : ascii) : bool := match c with "T"%char | " "%char => true | _ => false end.
+
+Definition parse_iso (cs : list ascii) : iso :=
+  match (olet '(y, r) <- take_n_digits 4 cs 0;
+         olet r <- expect_char "-" r;
+         olet '(m, r) <- take_n_digits 2 r 0;
+         olet r <- expect_char "-" r;
+         olet '(d, r) <- take_n_digits 2 r 0;
+         Some (y, m, d, r)) with
+  | None => IsoUnsup
+  | Some (y, m, d, []) => if valid_date y m d then IsoD (days_of_civil y m d) else IsoBad
+  | Some (y, m, d, c :: r) =>
+    if negb (is_sep c) then IsoUnsup else
+    match (olet '(h, r) <- take_n_digits 2 r 0;
+           olet r <- expect_char ":" r;
+           olet '(mi, r) <- take_n_digits 2 r 0;
+           olet r <- expect_char ":" r;
+           olet '(s, r) <- take_n_digits 2 r 0;
+           olet '(us, r) <- parse_fraction r;
+           olet z <- parse_zone r;
+           Some (h, mi, s, us, z)) with
+    | None => IsoUnsup
+    | Some (h, mi, s, us, z) =>
+      if valid_date y m d && valid_time h mi s
+      then IsoS (mkStamp ((days_of_civil y m d * DAY + h * 3600 + mi * 60 + s) * US + us) z)
+      else IsoBad
+    end
+  end.
+
+(* a bound as the text the user wrote (YAML or quoted string alike) *)
+Definition spec_of_text (t : string) : spec :=
+  if String.eqb t "now" then SNow
+  else if String.eqb t "today" then SToday
+  else match chars t with
+       | [] => SBad
+       | cs =>
+         match parse_rel cs with
+         | Some gs => SRel (slot gs 0) (slot gs 1) (slot gs 2) (slot gs 3) (slot gs 4) (slot gs 5) (slot gs 6)
+         | None =>
+           match parse_iso cs with
+           | IsoD d => SDate d
+           | IsoS s => SStamp s
+           | IsoBad => SBad
+           | IsoUnsup => SUnsup
+           end
+         end
+       end.
+
 (* ------------------------------------------------------------------ correspondence cases *)
 
-Inductive value := VZ (z : Z) | VNull | VDT (us : Z) (o : option Z).
+Inductive value := VZ (z : Z) | VNull | VDT (us : Z) (o : option Z) | VBad.
+
+(* a date / datetime as it is printed in the output *)
+Definition value_of_text (t : string) : value :=
+  match parse_iso (chars t) with
+  | IsoD d => VZ d
+  | IsoS s => VDT (instant s) (off s)
+  | IsoBad | IsoUnsup => VBad
+  end.
 
 Inductive fn :=
 | FNumber (mn mx step : Z)
 | FChoice (a : rc_args)
+| FBlock (b : block) (key : Z)
 | FDate (c : clock) (s e : spec)
 | FDateTime (cs ce : clock) (s e : spec) (tz : option Z).
 
@@ -295,6 +610,7 @@ Definition run_fn (f : fn) (d : option Z) (den : Z) : result value :=
   match f with
   | FNumber mn mx step => do v <- random_number mn mx step d; Ok (VZ v)
   | FChoice a => do v <- random_choice a d den; Ok (VZ v)
+  | FBlock b k => do v <- run_block b k d den; Ok (VZ v)
   | FDate c s e =>
     do v <- date_between c s e d den;
     Ok (match v with Some day => VZ day | None => VNull end)
@@ -335,6 +651,7 @@ Definition possible (f : fn) (v : value) : bool :=
   match f, v with
   | FNumber mn mx step, VZ x => number_possible mn mx step x
   | FChoice a, VZ x => choice_possible a x
+  | FBlock b k, VZ x => block_possible b k x
   | FDate c s e, v =>
     match resolve_date c s, resolve_date c e with
     | Ok ds, Ok de =>
@@ -373,7 +690,10 @@ Inductive case :=
 (* arguments that are formulas evaluated anew for every row (e.g. weights depending on `id`):
    one (function, draw, produced value) per row; and the free-draw variant *)
 | CPerRow (den : Z) (rows : list (fn * Z * value))
-| CPerRowFree (rows : list (fn * value)).
+| CPerRowFree (rows : list (fn * value))
+(* random_choice blocks of one object rendered for many rows: per produced value the block it
+   comes from, the key of its row, the draw (None: a free draw) and the value *)
+| CBlocks (den : Z) (blks : list block) (rows : list (nat * Z * option Z * value)).
 
 Definition check_case (c : case) : bool :=
   match c with
@@ -388,4 +708,12 @@ Definition check_case (c : case) : bool :=
     forallb (fun r => let '(f, d, v) := r in
                       result_eqb value_eqb (through_recipe (run_fn f (Some d) den)) (Ok v)) rows
   | CPerRowFree rows => forallb (fun r => possible (fst r) (snd r)) rows
+  | CBlocks den blks rows =>
+    forallb (fun r => let '(i, k, d, v) := r in
+                      match nth_error blks i, d with
+                      | Some b, Some x =>
+                        result_eqb value_eqb (through_recipe (run_fn (FBlock b k) (Some x) den)) (Ok v)
+                      | Some b, None => possible (FBlock b k) v
+                      | None, _ => false
+                      end) rows
   end.
